@@ -509,12 +509,14 @@ def rule_purity(rep, res, entry=None, rule="R-PURITY", ignore_origins=()):
         t = ev.d["target"]
         if t.tag("kind") in ("list", "dict", "int") or t.tag("isnum"):
             continue
-        k = (ev.loc, ev.text())
+        fr = t.fresh
+        # one construct may be reached with several targets (a helper called with a fresh array and with the caller's array):
+        # each freshness class is judged once
+        k = (ev.loc, ev.text(), "F" if fr == "FRESH" else ("U" if fr is None else tuple(sorted(fr[1]))))
         if k in seen:
             continue
         seen.add(k)
         n += 1
-        fr = t.fresh
         if fr == "FRESH":
             rep.holds(rule, "in-place write targets a fresh array", where=ev.loc, construct=ev.text(), entry=entry,
                       config=res.config, msg="target allocated inside the call")
@@ -547,8 +549,11 @@ def rule_dtype_casts(rep, res, entry=None, rule="R-DTYPE"):
             continue
         seen.add(k)
         rep.violated(rule, "no input is cast to another input's dtype", where=ev.loc, construct=ev.text(), entry=entry, config=res.config,
-                     msg=f"the value is converted to a dtype derived from {sorted(ev.d['dtype_src'])}: with integer/bool data there, fractional "
-                         f"values (sample points, wavelengths, grids) are silently truncated")
+                     msg=(f"a freshly computed real-valued grid is produced in a dtype taken from the input arrays {sorted(ev.d['dtype_src'])}: "
+                          f"with integer-typed inputs the grid points are truncated to integers (non-uniform grid, wrong positions)")
+                     if ev.d.get("computed") else
+                         (f"the value is converted to a dtype derived from {sorted(ev.d['dtype_src'])}: with integer/bool data there, fractional "
+                          f"values (sample points, wavelengths, grids) are silently truncated"))
     return len(seen)
 
 
